@@ -106,8 +106,11 @@ QUICK = {"C01": ["SQ1", "SQ3", "A", "E", "E3b"], "C02": ["E", "E3q", "A", "S"], 
 # every property's quick tier also sees every small exhaustive world (a change often shows only in a world built for
 # another property: mirrored coordinates, a bystander account, two leases of one provider)
 SMALL = ["SQ3", "SQ5", "SQ6", "SB", "RX", "RA", "E3b"]
+# the escrow-keeper worlds have escrow accounts with no deployment behind them: only the properties that speak about the
+# escrow module alone are judged there
+ESCROW_ONLY_OK = {"C01", "C02", "C03", "C06", "C07"}
 for _p in QUICK:
-    QUICK[_p] = QUICK[_p] + [f for f in SMALL if f not in QUICK[_p]]
+    QUICK[_p] = QUICK[_p] + [f for f in SMALL if f not in QUICK[_p] and (f not in ESCROW_FAMILIES or _p in ESCROW_ONLY_OK)]
 # C07 executes every step five times (three repetitions, a second instance, a restarted instance): fewer worlds
 QUICK["C07"] = ["R", "RX", "A", "SQ3", "SQ6", "SB", "RA", "E3b"]
 THOROUGH = {"C01": ["SX", "E", "EL", "S", "A", "B"], "C02": ["SX", "E", "E3q", "EL", "A", "S"], "C03": ["SX", "E", "EL", "S", "A"],
